@@ -17,7 +17,7 @@ RULE = (
     "Hypothesis multigraphs (<= 8 vertices, <= 14 links of the directed/undirected families incl. subclasses; an "
     "unknown-class link would make both search and traversal raise under the searches' fixed default settings - "
     "excluded by construction), universes as ordered subsets or None, vertex classes incl. a falsy Vertex "
-    "subclass (__bool__ False) and one falsy through __len__, an attribute plan (name in {k, name, uid, i, and the dotted name 'node.id'}; values "
+    "subclass (__bool__ False) and one falsy through __len__, an attribute plan (name in {k, name, uid, i, the dotted name 'node.id', 'code' (a normalising property on some vertex classes, a plain attribute on others), 'cycles' (user data named like a universe law, some vertices being universes)}; values "
     "from a 3-value domain so several listed vertices match; some vertices lack the attribute; matching vertices "
     "may lie outside the universe) and a sought value that is equal but not identical to the stored one (big int "
     "rebuilt at run time, float vs int, rebuilt str) or absent, or an object whose == accepts every value (then the first listed vertex HAVING the attribute is the match), or None (stored None must match, a vertex lacking the attribute must not).  Cases run with neighbor caching on or off, universes are optionally padded with 40 / 1000 isolated members, and every case is evaluated again on the same objects after a membership swap (one member out, one non-member in).  Oracle: the first vertex of bft / dft_recursive / "
@@ -35,7 +35,7 @@ LEVEL_TEXT = "Exploration: differential of each search against the first match o
 LEVEL_NOTE = "Trusts the traversals' listings (validated separately by C06/C07) and the reference orders. Search, not proof."
 TECHNIQUE = "Hypothesis differential: search result vs. first match in traversal order (library listing and reference model)"
 
-ATTRS = ["k", "name", "uid", "i", "node.id"]
+ATTRS = ["k", "name", "uid", "i", "node.id", "code", "cycles"]
 
 
 def budget(tier):
@@ -48,7 +48,7 @@ def strategy(tier):
     return st.builds(
         lambda t, attr, plan, sought, mode: {"t": t, "attr": attr, "plan": plan, "sought": sought, "mode": mode},
         trav.cases(classes=4, settings=False),
-        st.integers(0, 4),
+        st.integers(0, 6),
         st.lists(st.integers(0, 3), min_size=1, max_size=8),
         st.integers(0, 8),
         st.integers(0, 5),
@@ -117,6 +117,11 @@ def _check_on(S, case, first):
             v["node.id"] = 70 + sel             # an attribute whose NAME contains a dot (item access allows it)
             if sel == 1:
                 v.node = _Holder(70)            # ... next to an attribute path node -> id that must NOT be followed
+        elif an == "code" and sel != 3:
+            # SubVertex-family vertices have a normalising PROPERTY of that name (raw value kept lower-case)
+            v.code = ("n%d" if isinstance(type(v).__dict__.get("code", getattr(type(v), "code", None)), property) else "N%d") % sel
+        elif an == "cycles" and sel != 3:
+            v.cycles = 70 + sel                 # user data named like a universe law (some vertices ARE universes)
     s = case["sought"]
     if mode == 5:
         sought = _Anything()                          # == to every value: the first vertex HAVING the attribute matches
@@ -133,8 +138,10 @@ def _check_on(S, case, first):
             sought = int(str(BIG + s % 4))
     elif an == "name":
         sought = "".join(["n", str(s % 4)])       # rebuilt str; n3 is absent
-    elif an == "node.id":
+    elif an in ("node.id", "cycles"):
         sought = 70 + s % 4
+    elif an == "code":
+        sought = "".join(["N", str(s % 4)])
     elif an == "uid":
         sought = int(str(S.vs[s % n].uid)) if mode != 2 else 12345
     else:
